@@ -195,6 +195,24 @@ Proof.
     replace (Z.min (mx - df) 2147483647) with (mx - df) by lia. reflexivity.
 Qed.
 
+(* |rha (d * x) y| <= |d| when 0 < x < y *)
+Lemma rha_scale_bound d x y : 0 < x < y -> - Z.abs d <= rha (d * x) y <= Z.abs d.
+Proof.
+  intros Hx. destruct (Z_lt_le_dec d 0) as [Hn|Hp].
+  - assert (H1 : 0 < - (d * x)) by nia.
+    assert (H2 : - (d * x) <= (- d) * y) by nia.
+    rewrite rha_neg by lia.
+    assert (0 <= (2 * - (d * x) + y) / (2 * y)) by (apply Z.div_pos; lia).
+    assert ((2 * - (d * x) + y) / (2 * y) < - d + 1) by (apply Z.div_lt_upper_bound; lia).
+    lia.
+  - assert (H1 : 0 <= d * x) by nia.
+    assert (H2 : d * x <= d * y) by nia.
+    rewrite rha_pos by lia.
+    assert (0 <= (2 * (d * x) + y) / (2 * y)) by (apply Z.div_pos; lia).
+    assert ((2 * (d * x) + y) / (2 * y) < d + 1) by (apply Z.div_lt_upper_bound; lia).
+    lia.
+Qed.
+
 (* ---- avar SegmentMaps::apply ---- *)
 Definition fx4 (x : Z) : Z := x * 4.
 
@@ -259,14 +277,7 @@ Proof.
   set (d := t1 * 4 - t0 * 4). set (x := coord - f0 * 4). set (y := f1 * 4 - f0 * 4).
   assert (Hx : 0 < x < y) by (subst x y; lia).
   assert (Hd : -262140 <= d <= 262140) by (subst d; lia).
-  assert (Hr : - Z.abs d <= rha (d * x) y <= Z.abs d).
-  { destruct (Z_lt_le_dec d 0) as [Hn|Hp].
-    - rewrite rha_neg by nia. split.
-      + assert ((2 * - (d * x) + y) / (2 * y) <= - d); [|lia]. apply Z.div_le_upper_bound; nia.
-      + assert (0 <= (2 * - (d * x) + y) / (2 * y)); [|lia]. apply Z.div_pos; nia.
-    - rewrite rha_pos by nia. split.
-      + assert (0 <= (2 * (d * x) + y) / (2 * y)); [|lia]. apply Z.div_pos; nia.
-      + assert ((2 * (d * x) + y) / (2 * y) <= d); [|lia]. apply Z.div_le_upper_bound; nia. }
+  pose proof (rha_scale_bound d x y Hx) as Hr.
   rewrite fixed_mul_div_spec; unfold i32; try lia.
   apply wrap_s32_id. unfold i32. lia.
 Qed.
